@@ -6,7 +6,8 @@ from props import nutslib as N
 
 ID = "C04"
 LEVEL = "proof"
-COQ_HEADER = "From MiniMcmc Require Import Model.DualAvg Model.FindEps."
+COQ_HEADER = "From MiniMcmc Require Import Model.DualAvg Model.FindEps Model.NUTSEval."
+HMARK = -1000000019
 RULE = ("real NUTSChain runs (Gaussians dim 1..6, DiffableGaussian2D, Rosenbrock2D; target acceptance in (0.5,0.99); warm-up 0..300 "
         "quick / ..2000 thorough; f32 and f64; one to three consecutive run() calls on one chain): after every transition the "
         "adaptation state (m, eps, eps_bar, h_bar, mu) read through the adapt_state hook; one-step check: from the emitted previous "
@@ -223,7 +224,25 @@ def coq_term(case, out):
         parts.append("da_run_eval %s %s %s %s %s %s %s %s %s %s" % (
             idy(delta), idy(gamma), idy(kappa), C.natlit(run["d"]), C.natlit(p[0]),
             idy(N.bf(p[1])), idy(N.bf(p[2])), idy(N.bf(p[3])), idy(N.bf(p[4])), accs))
+    hs = hbar_steps(case, out)
+    if hs:
+        fn = "hbar_step32" if case["f"] == "f32" else "hbar_step64"
+        tb = lambda b: N.tbits(case["f"], b)
+        dl = tb(fb(tround(case["f"], case["accept"])))
+        parts.append("[%s]" % C.z(HMARK))
+        for (p, a, na, st) in hs:
+            parts.append("%s %d %d %d %s %s" % (fn, dl, tb(p[3]), tb(a), C.natlit(st[0]), C.natlit(na)))
     return " ++ ".join("(%s)" % q for q in parts)
+
+
+def hbar_steps(case, out):
+    """(previous state, alpha bits, n_alpha, next state) of up to 60 transitions with finite inputs: the H_bar update is
+    evaluated bit-exactly in Flocq (Model.NUTSEval.hbar_step)"""
+    res = []
+    for (nd, p, a, na, st) in steps(case, out):
+        if na >= 1 and math.isfinite(N.bf(p[3])) and math.isfinite(N.bf(a)):
+            res.append((p, a, na, st))
+    return res[:30] + res[-30:] if len(res) > 60 else res
 
 
 def whole_runs(out):
@@ -324,6 +343,16 @@ def compare(case, out, model):
             if not okk:
                 return "end of a run of %d transitions (warm-up %d, from m=%d): %s = %.10g, Model.DualAvg.da_run encloses [%.10g, %.10g]" % (
                     k, run["d"], run["after_init"][0], name, x, float(lo), float(hi))
+    if pos < len(model) and model[pos] == HMARK:
+        pos += 1
+        for (p, a, na, st) in hbar_steps(case, out):
+            got = N.tbits(case["f"], st[3])
+            if got != model[pos]:
+                conv = C.f32_bits_to_float if case["f"] == "f32" else C.f64_bits_to_float
+                return ("transition m=%d: H_bar = %r (bits %d); (1 - eta) * H_bar + eta * (delta - alpha/n_alpha) with eta = 1/(m + 10), "
+                        "evaluated in IEEE arithmetic (Model.NUTSEval.hbar_step), gives %r (bits %d)" % (
+                            st[0], N.bf(st[3]), got, conv(model[pos]), model[pos]))
+            pos += 1
     if pos != len(model):
         return "internal: %d model numbers, %d consumed" % (len(model), pos)
     return None
@@ -459,6 +488,7 @@ def extra(cases, outs, model):
             "multi_run_cases": sum(1 for c in cases if c["op"] == "transitions" and len(c["runs"]) >= 2),
             "watchdog_inconclusive": [C.abbrev(c) for c, o in zip(cases, outs) if isinstance(o, dict) and "timeout" in o][:5],
             "watchdog_inconclusive_count": sum(1 for o in outs if isinstance(o, dict) and "timeout" in o),
+            "hbar_bitexact_steps": sum(len(hbar_steps(c, o)) for c, o in zip(cases, outs) if c["op"] == "transitions" and isinstance(o, dict) and "runs" in o),
             "whole_runs_checked": sum(len(whole_runs(o)) for c, o in zip(cases, outs) if c["op"] == "transitions" and "runs" in o),
             "find_eps_cases": sum(1 for c in cases if c["op"] == "find_eps"),
             "find_eps_values": sorted({N.bf(o["eps"]) for c, o in zip(cases, outs) if c["op"] == "find_eps" and "eps" in o})}
